@@ -1,17 +1,143 @@
-import Rtsp.Model.B64
+import Rtsp.Proofs.FrameRT3
 /-
-C04 — RTSP framing round-trips for any chunking and carrier.  (theorems are added below as they
-are proved; see Proofs/Frame*.lean)
+C04 — RTSP framing round-trips for any chunking and carrier.
+
+Model: `Model/Frame.lean` (pkg/base + the dispatch of pkg/conn), `Model/Chunk.lean` (chunked
+reader), `Model/B64.lean` (base64 carrier of the HTTP tunnel).  `up` is the URL parser
+(`net/url` is a parameter of the model).  The theorems quantify over all messages / byte streams
+/ partitions; nothing is bounded.
 -/
-namespace Rtsp.Frame
+namespace Rtsp.C04
+open Rtsp.Frame Rtsp.Facts.Frame
 
-/-- test (not a theorem about all inputs): the serialisers and the reader on one sample -/
-theorem sample_roundtrip :
-    parseAll (fun u => some u)
-      (serializeAll [.frame { channel := 3, payload := [1, 2] },
-                     .res { code := 200, msg := str "OK", header := [(kCSeq, [str "1"])], body := [] }])
-    = ([.frame { channel := 3, payload := [1, 2] },
-        .res { code := 200, msg := str "OK", header := [(kCSeq, [str "1"])], body := [] }], .eof) := by
-  decide
+/-! ## The `WellFormed` predicate, spelled out (definitions in `Proofs/FrameWF.lean`) -/
 
-end Rtsp.Frame
+theorem keyOK_iff (k : Bytes) : KeyOK k ↔
+    (headerKeyNormalize k = k ∧                     -- the key is in the form the parser stores
+     ∃ b t, k = b :: t ∧ b ≠ CR ∧ COLON ∉ t ∧      -- non-empty, does not start the empty line, no ':' after the first byte
+       t.length < headerKeyReadLimit) := Iff.rfl     -- at most 511 bytes
+
+theorem valueOK_iff (v : Bytes) : ValueOK v ↔
+    (CR ∉ v ∧ v.head? ≠ some SP ∧ v.length < headerValueReadLimit) := Iff.rfl
+
+theorem headerOK_iff (h : Header) : HeaderOK h ↔
+    ((∀ e ∈ h, KeyOK e.1 ∧ e.2 ≠ [] ∧ ∀ v ∈ e.2, ValueOK v) ∧
+     h.Pairwise (fun a b => bytesLt a.1 b.1 = true) ∧
+     entryCount h ≤ headerMaxEntryCount) := Iff.rfl
+
+theorem bodyOK_iff (h : Header) (body : Bytes) : BodyOK h body ↔
+    (body.length ≤ rtspMaxBodySize ∧
+     hlookup h kContentLength = (if body = [] then none else some [toDec body.length])) := Iff.rfl
+
+theorem requestOK_iff (up : Bytes → Option Bytes) (r : Request) : RequestOK up r ↔
+    ((∃ b0 b1 t, r.method = b0 :: b1 :: t ∧ isReqPrefix b0 b1 = true) ∧   -- a method `Conn.Read` routes to a request
+     SP ∉ r.method ∧ r.method.length < requestMaxMethodLength ∧
+     (∀ u, r.url = some u → u ≠ star ∧ SP ∉ u ∧ u.length < requestMaxURLLength ∧ up u = some u) ∧  -- parse/String-stable URL
+     HeaderOK r.header ∧ BodyOK r.header r.body) := Iff.rfl
+
+theorem responseOK_iff (r : Response) : ResponseOK r ↔
+    (r.code < 1000 ∧ CR ∉ r.msg ∧ r.msg.length < responseMaxStatusMessageLength ∧
+     (r.msg ≠ [] ∨ defaultStatusMessage r.code = none) ∧
+     HeaderOK r.header ∧ BodyOK r.header r.body) := Iff.rfl
+
+theorem frameOK_iff (f : IFrame) : FrameOK f ↔ (f.channel < 256 ∧ f.payload.length < 65536) := Iff.rfl
+
+/-! ## Round trip -/
+
+/-- **parse_serialize**: any sequence of well-formed requests, responses and interleaved frames
+serialised back-to-back is read back as the same sequence (method / status, URL, headers with
+multi-values, body, channel, payload), and the stream ends cleanly. -/
+theorem parse_serialize (up : Bytes → Option Bytes) (ms : List Elem) (h : ∀ m ∈ ms, WellFormed up m) :
+    parseAll up (serializeAll ms) = (ms, .eof) :=
+  Rtsp.Frame.parse_serialize up ms h
+
+/-- **chunk_independent**: for every byte stream (well-formed or not) and every partition of it
+into reads — 1-byte reads and empty reads included — the chunked reader returns the element
+sequence and the way of ending of the concatenation. -/
+theorem chunk_independent (up : Bytes → Option Bytes) (chunks : List Bytes) :
+    readAll up [] chunks = parseAll up chunks.flatten :=
+  Rtsp.Frame.chunk_independent up chunks
+
+/-- the two together: the statement of the property for the direct carrier -/
+theorem roundtrip_any_chunking (up : Bytes → Option Bytes) (ms : List Elem) (h : ∀ m ∈ ms, WellFormed up m)
+    (chunks : List Bytes) (hc : chunks.flatten = serializeAll ms) :
+    readAll up [] chunks = (ms, .eof) :=
+  Rtsp.Frame.parse_serialize_chunked up ms h chunks hc
+
+/-- monotonicity of `Conn.Read` (the lemma behind `chunk_independent`): a result decided on the
+bytes received so far is not changed by the bytes that follow, and an element consumes at least
+one byte. -/
+theorem readElem_monotone (up : Bytes → Option Bytes) (bs more : Bytes) :
+    (∀ e rest, readElem up bs = .ok e rest → readElem up (bs ++ more) = .ok e (rest ++ more) ∧ rest.length < bs.length) ∧
+    (readElem up bs = .err → readElem up (bs ++ more) = .err) := by
+  have := mono_readElem up bs more
+  exact ⟨fun e rest h => ⟨(this.1 e rest h).1, by have := (this.1 e rest h).2; omega⟩, this.2⟩
+
+/-- a strict prefix of a stream that is exactly one element is never decided: the reader waits -/
+theorem strict_prefix_needs_more (up : Bytes → Option Bytes) (pre suf : Bytes) (e : Elem)
+    (h : readElem up (pre ++ suf) = .ok e []) (hs : suf ≠ []) :
+    ∃ hard, readElem up pre = .more hard := by
+  have := mono_readElem up pre suf
+  cases hp : readElem up pre with
+  | ok e' r =>
+    have h1 := (this.1 e' r hp).1
+    rw [h] at h1
+    simp only [PR.ok.injEq] at h1
+    have : r ++ suf = [] := h1.2.symm
+    simp only [List.append_eq_nil_iff] at this
+    exact absurd this.2 hs
+  | more hd => exact ⟨hd, rfl⟩
+  | err => have h1 := this.2 hp; rw [h] at h1; cases h1
+
+/-! ## Non-vacuity -/
+
+def sampleRequest : Request :=
+  { method := str "ANNOUNCE", url := some (str "rtsp://example.com/stream"),
+    header := [(kCSeq, [str "1"]), (kContentLength, [str "3"]), (str "Session", [str "abc", str "def"])],
+    body := str "v=0" }
+
+def sampleResponse : Response :=
+  { code := 404, msg := str "Not Found", header := [(kCSeq, [str "2"]), (kRtpInfo, [[]])], body := [] }
+
+def sampleFrame : IFrame := { channel := 255, payload := [36, 0, 1, 2] }
+
+theorem sample_wellFormed :
+    ∀ m ∈ [Elem.req sampleRequest, .res sampleResponse, .frame sampleFrame], WellFormed (fun u => some u) m := by
+  intro m hm
+  simp only [List.mem_cons, List.mem_nil_iff, or_false] at hm
+  rcases hm with rfl | rfl | rfl
+  · refine ⟨⟨65, 78, str "NOUNCE", by decide, by decide⟩, by decide, by decide, ?_, ?_, by decide⟩
+    · intro u hu
+      simp only [sampleRequest, Option.some.injEq] at hu
+      subst hu
+      exact ⟨by decide, by decide, by decide, rfl⟩
+    · refine ⟨?_, by decide, by decide⟩
+      intro e he
+      simp only [sampleRequest, List.mem_cons, List.mem_nil_iff, or_false] at he
+      rcases he with rfl | rfl | rfl
+      · exact ⟨⟨by decide, 67, str "Seq", by decide, by decide, by decide, by decide⟩, by decide, by decide⟩
+      · exact ⟨⟨by decide, 67, str "ontent-Length", by decide, by decide, by decide, by decide⟩, by decide, by decide⟩
+      · exact ⟨⟨by decide, 83, str "ession", by decide, by decide, by decide, by decide⟩, by decide, by decide⟩
+  · refine ⟨by decide, by decide, by decide, by decide, ?_, by decide⟩
+    refine ⟨?_, by decide, by decide⟩
+    intro e he
+    simp only [sampleResponse, List.mem_cons, List.mem_nil_iff, or_false] at he
+    rcases he with rfl | rfl
+    · exact ⟨⟨by decide, 67, str "Seq", by decide, by decide, by decide, by decide⟩, by decide, by decide⟩
+    · exact ⟨⟨by decide, 82, str "TP-Info", by decide, by decide, by decide, by decide⟩, by decide, by decide⟩
+  · exact ⟨by decide, by decide⟩
+
+/-- the hypotheses of `parse_serialize` / `roundtrip_any_chunking` are satisfiable by a mixed
+sequence with a body, multi-valued and empty header values and a frame whose payload starts with `$` -/
+example : parseAll (fun u => some u) (serializeAll [Elem.req sampleRequest, .res sampleResponse, .frame sampleFrame])
+    = ([Elem.req sampleRequest, .res sampleResponse, .frame sampleFrame], .eof) :=
+  parse_serialize _ _ sample_wellFormed
+
+/-- test (one input, evaluated by the kernel): 1-byte chunks -/
+example : readAll (fun u => some u) [] ((serializeAll [Elem.res sampleResponse, .frame sampleFrame]).map fun b => [b])
+    = ([Elem.res sampleResponse, .frame sampleFrame], .eof) := by decide
+
+/-- test: a strict prefix is undecided (non-vacuity of `strict_prefix_needs_more`) -/
+example : readElem (fun u => some u) (marshalFrame sampleFrame) = .ok (.frame sampleFrame) [] := by decide
+
+end Rtsp.C04
